@@ -86,3 +86,22 @@ Print Assumptions C05_chapman.
 Print Assumptions C05_adiabatic.
 Print Assumptions C05_half_space.
 Print Assumptions C05_ridge_nearest_point.
+
+(** slab and fault temperature models (uniform, linear with prescribed end temperatures, adiabatic): the old value outside
+    the model's distance range, the documented expression combined by the operation inside it; [S], every number
+    interpretation.  (The slab plate model, the mass conserving model and the smooth composition are in the model and
+    compared bit for bit; their closed forms are the model terms themselves.) *)
+From WB Require Import Bezier SlabModel SlabFeature SlabFeatureProofs.
+Theorem C05_slab_fault_dispatch : forall (F : Type) (NF : Num F) g fault sph q pd th tot old,
+  (forall mn mx o T, @stemp_eval F NF g fault sph q pd th tot (STUniform mn mx o T) old =
+     if in_dist mn mx (if fault then fabs (pd_distance pd) else pd_distance pd) then apply_op o old T else old) /\
+  (forall mn mx o t0 t1, flt t0 f0 = false -> flt t1 f0 = false ->
+     @stemp_eval F NF g fault sph q pd th tot (STLinear mn mx o t0 t1) old =
+     let dd := if fault then fabs (pd_distance pd) else pd_distance pd in
+     if in_dist mn mx dd then apply_op o old (fadd t0 (fmul (fsub dd mn) (fdiv (fsub t1 t0) (fsub mx mn)))) else old) /\
+  (forall mn mx o Tp alpha cp,
+     @stemp_eval F NF g fault sph q pd th tot (STAdiabatic mn mx o Tp alpha cp) old =
+     if in_dist mn mx (if fault then q_depth q else pd_distance pd)
+     then apply_op o old (fmul Tp (fexp (fmul (fdiv (fmul alpha (q_g q)) cp) (q_depth q)))) else old).
+Proof. intros F NF g fault sph q pd th tot old. exact (stemp_dispatch g fault sph q pd th tot old). Qed.
+Print Assumptions C05_slab_fault_dispatch.
